@@ -306,6 +306,24 @@ Theorem P1_annotate_all_ok_perm : forall tau inv (I : insts) (G G' : graph),
 Proof. exact annotate_all_ok_perm. Qed.
 Print Assumptions P1_annotate_all_ok_perm.
 
+(** ** elementary facts about the declarative counts *)
+
+Theorem P1_occ_le_class_count : forall dir tau (I : insts) (G : graph) c p k card,
+  occ dir tau I G c p k card <= class_count I c.
+Proof. exact occ_le_class_count. Qed.
+Print Assumptions P1_occ_le_class_count.
+
+Theorem P1_occ_exact_le_plus : forall dir tau (I : insts) (G : graph) c p k n,
+  str_eqb p tau = false ->
+  occ dir tau I G c p k (CKn n) <= occ dir tau I G c p k CKplus.
+Proof. exact occ_exact_le_plus. Qed.
+Print Assumptions P1_occ_exact_le_plus.
+
+Theorem P1_occ_tau_only_one : forall dir tau (I : insts) (G : graph) c k card,
+  card <> CKn 1 -> occ dir tau I G c tau k card = 0.
+Proof. exact occ_tau_only_one. Qed.
+Print Assumptions P1_occ_tau_only_one.
+
 (** ** non-vacuity: a concrete graph
 
     Two classes C, D; three instances: a : C, b : C and D (multi-typed), the
